@@ -123,7 +123,12 @@ impl Tab {
                 Cmd::CancelTimer(t) => o.cancel_timer(*t),
                 Cmd::Choose(k, l) => {
                     if l.is_empty() {
-                        o.remove_random(k.clone())
+                        // the two spellings of "retract the pending choice"
+                        if k == "y" {
+                            o.choose_random(k.clone(), Vec::new())
+                        } else {
+                            o.remove_random(k.clone())
+                        }
                     } else {
                         o.choose_random(k.clone(), l.clone())
                     }
